@@ -26,16 +26,16 @@ ASSUMPTIONS = [
 
 
 def run(ctx, rep):
-    RT.rule_capture_complete(ctx, rep, "G1", min_actions=26)
+    rep.run(RT.rule_capture_complete, ctx, rep, "G1", min_actions=26)
     rep.require_min("G1", 60)
-    RT.rule_no_phantom_read(ctx, rep, "G2")
+    rep.run(RT.rule_no_phantom_read, ctx, rep, "G2")
     rep.require_min("G2", 40)
-    RT.rule_no_clash(ctx, rep, "G3")
-    RT.rule_binding(ctx, rep, "F1", min_actions=26)
-    RT.rule_marker_chain(ctx, rep, "F3")
+    rep.run(RT.rule_no_clash, ctx, rep, "G3")
+    rep.run(RT.rule_binding, ctx, rep, "F1", min_actions=26)
+    rep.run(RT.rule_marker_chain, ctx, rep, "F3")
     rep.require_min("F3", 8)
-    RT.rule_scope_symmetry(ctx, rep, "G4")
-    RT.rule_member_exhaustive(ctx, rep, "G5", min_kinds=7)
-    RT.rule_no_reorder(ctx, rep, "G6")
-    RT.rule_ordered_choice(ctx, rep, "G7")
+    rep.run(RT.rule_scope_symmetry, ctx, rep, "G4")
+    rep.run(RT.rule_member_exhaustive, ctx, rep, "G5", min_kinds=7)
+    rep.run(RT.rule_no_reorder, ctx, rep, "G6")
+    rep.run(RT.rule_ordered_choice, ctx, rep, "G7")
     rep.require_min("G7", 2)
